@@ -50,7 +50,14 @@ WORDMAP = {"ue": "\u00e9",
            "cslash": "\uff0f",    # FULLWIDTH SOLIDUS
            "cbslash": "\uff3c",   # FULLWIDTH REVERSE SOLIDUS
            "ca": "\uff41",        # FULLWIDTH LATIN SMALL LETTER A
-           "csub": "\uff53\uff55\uff42"}   # fullwidth "sub"
+           "csub": "\uff53\uff55\uff42",   # fullwidth "sub"
+           # white space (the constant Blanks of Loaders.tla): ordinary name characters for the loaders
+           "SPC": " ", "TAB": "\t", "NL": "\n", "NBSP": "\u00a0", "IDSP": "\u3000"}
+BLANKS = ["SPC", "TAB", "NL", "NBSP", "IDSP"]
+# segments padded with white space: parent references ('.. ', ' ..', '..\t', ...), a padded '.', padded file
+# names and a segment of white space only.  In the specification each is a file name (that does not exist).
+PADDED_FRAGS = [[".", ".", "SPC"], ["SPC", ".", "."], [".", ".", "TAB"], ["NL", ".", ".", "SPC"], [".", ".", "NBSP"],
+                ["IDSP", ".", "."], [".", "SPC"], ["a", "SPC"], ["SPC", "sub"], ["SPC"]]
 CONFUSABLE_FRAGS = [["c2dot"], ["cdot", "cdot"], ["cdot1", "cdot1"], [".", "cdot1"], ["csdot", "csdot"],
                     [".", ".", "cslash", "a"], [".", ".", "cbslash", "a"], ["ca"], ["csub"]]
 
@@ -73,7 +80,8 @@ ABK = ["a", "\\", ".", "."]          # a file literally named  a\..
 CCOL = ["C", ":"]                    # a file literally named  C:
 POSIX = {"sep": "/", "altsep": ""}
 WINDOWS = {"sep": "\\", "altsep": "/"}
-CODE = {"pardir": True, "sep": True, "split": True}
+CODE = {"pardir": True, "sep": True, "split": True, "verbatim": True}
+NOVERBATIM = dict(CODE, verbatim=False)     # pieces white-space-normalised after the check
 NOPARDIR = dict(CODE, pardir=False)
 NOSEP = dict(CODE, sep=False)
 NOSPLIT = dict(CODE, split=False)
@@ -105,6 +113,8 @@ class Tree:
         inside = []
         inside += [self.d1 + r for r in (W("a"), W("sub", "a"), [BSX], W("sub") + [CCOL], W("ue"))]
         inside += [self.d2 + r for r in (W("a"), W("sub", "ue"), [CCOL], [ABK], W("sub", "sub", "a"), W("x"))]
+        # a file literally named 'a ' and a DIRECTORY literally named '.. ' (white space is part of the name)
+        inside += [self.d1 + [["a", "SPC"]], self.d2 + [[".", ".", "SPC"], ["a"]]]
         inside += [self.dp + r for r in (W("a"), W("sub", "a"), W("ue"), [BSX], W("sub", "x"))]
         outside = []
         for k in range(len(self.base), len(self.above) + 1):
@@ -157,6 +167,7 @@ mc_Files == {{{", ".join(tla(f) for f in files)}}}
 mc_Loaders == {ld}
 mc_Platforms == {{{", ".join(tla(p) for p in platforms)}}}
 mc_Switches == {{{", ".join(tla(s) for s in switches)}}}
+mc_Blanks == {{{", ".join(tla(b) for b in BLANKS)}}}
 ====
 """
 
@@ -169,6 +180,7 @@ def mc_cfg(maxsegs, liveness=False):
   Loaders <- mc_Loaders
   Platforms <- mc_Platforms
   Switches <- mc_Switches
+  Blanks <- mc_Blanks
   MaxSegs = {maxsegs}
 SPECIFICATION Spec
 INVARIANT C28_ResolvedInside
@@ -177,6 +189,8 @@ INVARIANT C28_MatchesAbstract
 INVARIANT C28_OpensOnlyResult
 INVARIANT C28_JoinNeverResets
 INVARIANT C28_PiecesClean
+INVARIANT C28_PiecesVerbatim
+INVARIANT C28_PaddedParentIsAName
 INVARIANT C28_NormpathNeutral
 """
     if liveness:
@@ -372,7 +386,7 @@ def check_controls(ck, ctl):
     leaks = {}
     for (p, sw, _l, _n), b in ctl.items():
         key = ("posix" if p == "/" else "windows") + ":" + \
-              ("code" if all(sw) else "no-" + ["pardir", "sep", "split"][list(sw).index(False)])
+              ("code" if all(sw) else "no-" + ["pardir", "sep", "split", "verbatim"][list(sw).index(False)])
         leaks.setdefault(key, 0)
         if b["leak"]:
             leaks[key] += 1
@@ -380,14 +394,17 @@ def check_controls(ck, ctl):
     for key in ("posix:code", "windows:code"):
         if leaks.get(key, 0) != 0:
             raise core.MachineryError(f"model leaks with the code's switches ({key}) but invariant passed")
-    for key in ("posix:no-pardir", "posix:no-split", "windows:no-pardir", "windows:no-sep", "windows:no-split"):
+    for key in ("posix:no-pardir", "posix:no-split", "posix:no-verbatim", "windows:no-pardir", "windows:no-sep",
+                "windows:no-split", "windows:no-verbatim"):
         if leaks.get(key, 0) == 0:
             raise core.MachineryError(f"negative control {key} does not leave the search directories: "
                                       f"the model (tree, alphabet or invariant) is vacuous")
 
 
 CONF_FRAGS = lambda tree: [[], [".", "."], ["a"], ["sub"]] + CONFUSABLE_FRAGS  # noqa: E731
-CTL_FRAGS = lambda tree: [[], [".", "."], ["a"], ["sub"], BSX, ["\\"], tree.abs_frag]  # noqa: E731
+CTL_FRAGS = lambda tree: [[], [".", "."], ["a"], ["sub"], BSX, ["\\"], tree.abs_frag, [".", ".", "SPC"],  # noqa: E731
+                          ["TAB", ".", "."]]
+PAD_FRAGS = lambda tree: [[], [".", "."], ["a"], ["sub"]] + PADDED_FRAGS  # noqa: E731
 
 
 def fs_tlc(ck, tree):
@@ -396,7 +413,7 @@ def fs_tlc(ck, tree):
     frags = tree.frags()
     # control instance: all switch settings, both platforms, liveness, action coverage
     r0 = run_loaders_tlc("ctl", tree.files, tree.loaders, CTL_FRAGS(tree), 2, platforms=(POSIX, WINDOWS),
-                         switches=(CODE, NOPARDIR, NOSEP, NOSPLIT), coverage=True, liveness=True, workers=4)
+                         switches=(CODE, NOPARDIR, NOSEP, NOSPLIT, NOVERBATIM), coverage=True, liveness=True, workers=4)
     maxsegs = 3 if quick else 4
     r = run_loaders_tlc("main", tree.files, tree.loaders, frags, maxsegs, platforms=(POSIX, WINDOWS),
                         workers=6 if quick else 12)
@@ -410,7 +427,15 @@ def conf_tlc(ck, tree):
                            workers=4 if ck.tier == "quick" else 8)
 
 
-def part_fs(ck, tree, res, rconf):
+def pad_tlc(ck, tree):
+    """names whose segments are padded with white space ('.. /a', ' ../a', 'sub/..\\t/.. /a', 'a /a', ' /a')"""
+    return run_loaders_tlc("padded", tree.files, tree.loaders, PAD_FRAGS(tree), 3,
+                           last=None if ck.tier != "quick" else [["a"], [".", "."], [".", ".", "SPC"], ["a", "SPC"],
+                                                                 ["SPC"]],
+                           workers=4 if ck.tier == "quick" else 8)
+
+
+def part_fs(ck, tree, res, rconf, rpad):
     r0, r, maxsegs = res
     t1 = time.time()
     ck.add_tlc(r0, "Loaders: <= 2 segments, POSIX + Windows, 4 switch settings (liveness, coverage)")
@@ -425,7 +450,13 @@ def part_fs(ck, tree, res, rconf):
     ck.add_tlc(rconf, "Loaders: names over Unicode look-alikes of '.', '..', '/', '\\' and of file names, <= 3 segments")
     conf = behaviours(rconf)
     ck.extra["confusable_names"] = len(conf)
-    lines = {k: b for k, b in list(ctl.items()) + list(main.items()) + list(conf.items()) if k[0] == "/" and all(k[1])}
+    ck.add_tlc(rpad, "Loaders: names with segments padded by white space ('.. ', ' ..', '..\\t', '. ', 'a ', ' '), <= 3 segments")
+    pad = behaviours(rpad)
+    ck.extra["padded_names"] = len(pad)
+    if not any(any(a in BLANKS for a in k[3]) and b["o"] == NF and not b["op"] for k, b in pad.items()):
+        raise core.MachineryError("the padded instance of Loaders.tla has no name with white space")
+    lines = {k: b for k, b in list(ctl.items()) + list(main.items()) + list(conf.items()) + list(pad.items())
+             if k[0] == "/" and all(k[1])}
     ck.extra["windows_behaviours_model_only"] = sum(1 for k in main if k[0] != "/")
     # Environment.get_template for every name that resolves and for the short rejected ones
     n = replay_fs_lines(ck, tree, lines, lambda b: b["o"] != NF or len(b["n"]) <= 6)
@@ -450,7 +481,8 @@ def zip_setup():
     files = [base + W(*e.split("/")) for e in entries]
     root = base + W("t_pack", "templates")
     frags = [[], ["."], [".", "."], ["test.html"], ["foo"], ["__init__.py"], ["t_pack"], ["templates"],
-             [".", ".", "\\", "foo"], ["c2dot"], ["cdot", "cdot"], [".", ".", "cslash", "__init__.py"]]
+             [".", ".", "\\", "foo"], ["c2dot"], ["cdot", "cdot"], [".", ".", "cslash", "__init__.py"],
+             [".", ".", "SPC"]]
     return z, base, files, data, {"zip": {"dirs": [root], "norm": True}}, frags
 
 
@@ -1028,16 +1060,17 @@ def run(ck0):
         parts = set(os.environ.get("JV_C28_PARTS", "fs,zip,compose,session").split(","))  # development aid
         t0 = time.time()
         # the independent TLC runs go side by side (each with a share of the cores)
-        with ThreadPoolExecutor(5) as ex:
+        with ThreadPoolExecutor(6) as ex:
             f_fs = ex.submit(fs_tlc, ck, tree) if "fs" in parts else None
             f_zip = ex.submit(zip_tlc, ck, zs) if "zip" in parts else None
             f_co = ex.submit(compose_tlc, ck, inp) if "compose" in parts else None
             f_cf = ex.submit(conf_tlc, ck, tree) if "fs" in parts else None
             f_se = ex.submit(session_tlc, ck, sinp) if "session" in parts else None
-            res = [f.result() if f else None for f in (f_fs, f_zip, f_co, f_cf, f_se)]
+            f_pd = ex.submit(pad_tlc, ck, tree) if "fs" in parts else None
+            res = [f.result() if f else None for f in (f_fs, f_zip, f_co, f_cf, f_se, f_pd)]
         ck.extra.setdefault("phase_s", {})["tlc_all"] = round(time.time() - t0, 1)
         if res[0]:
-            part_fs(ck, tree, res[0], res[3])
+            part_fs(ck, tree, res[0], res[3], res[5])
         if res[1]:
             part_zip(ck, zs, res[1])
         if res[2]:
